@@ -1806,13 +1806,13 @@ Proof.
   split; [reflexivity|]. split; [reflexivity|]. split; [reflexivity|]. split; [reflexivity|].
   do 4 eexists. split; [vm_compute; reflexivity|]. vm_compute. reflexivity.
 Qed.
-(* a 64-bit length with the top bit set: refused after 10 bytes, nothing written *)
+(* a 64-bit length with the top bit set: refused after 10 bytes, the 1009 close is written *)
 Example top_bit :
   let s := init_rst (mk_bufio 125 [] {| chunks := [[130; 255] ++ be_enc 8 (2^63 + 5) ++ [1;2;3;4;5]];
                                         fault := EEOF; glued := false |}) <| rlimit := 10 |> in
   hdr_reject cfg (rfin s) 130 255 = false /\
   fst (advance_frame cfg s) = AErr RReadLimit /\
-  pending (br (snd (advance_frame cfg s))) = [1;2;3;4;5] /\ wlog (snd (advance_frame cfg s)) = [].
+  pending (br (snd (advance_frame cfg s))) = [1;2;3;4;5] /\ wlog (snd (advance_frame cfg s)) = [WCloseTooBig].
 Proof. vm_compute. repeat split; reflexivity. Qed.
 End Sanity.
 
